@@ -329,4 +329,8 @@ example : RT.ofN (decimalToValue ⟨92, 8⟩ 48) = .err .tooBig := by decide
 example : RT.ofN (decimalToAmount ⟨15, 1⟩ 0) = .ok 2 := by decide
 example : RT.ofN (decimalToAmount ⟨149, 2⟩ 0) = .ok 1 := by decide
 
+-- added by the hygiene audit: `from_decimal_down_exact_partial` — scale reduced with exactly divisible digits (all three hypotheses)
+example : RT.ofI (rescaleToMantissa ⟨1500, 3⟩ 1) = .ok 15 ∧ (1 < 3) ∧ ((1500 : Int) ≠ 0) ∧ (10 ^ (3 - 1) ∣ (1500 : Int).natAbs) := by decide
+example : RT.ofI (rescaleToMantissa ⟨-1500, 3⟩ 1) = .ok (-15) := by decide
+
 end Gmx.C43
